@@ -249,6 +249,17 @@ def make_cases(ctx):
                     "eof_instead_of_close_notify", "eof_ignore_abrupt"):
             yield "%s-close-%s" % (name, var), dict(sc=name, label=label,
                                                     close=var)
+        # the same connection objects used for a second session (the
+        # transport stays open: closeSocket=False); the first one ended by
+        # the client, by the server, or by both at once.  TLS 1.3 excluded:
+        # the library cannot start a second TLS 1.3 handshake on one object
+        if flavours.BY_NAME[name].ver != (3, 4) and \
+                "resume" not in name:
+            for first in ("client_closed", "server_closed", "both_closed"):
+                for var in ("client_first", "server_first", "both_close"):
+                    yield ("%s-reuse-%s-%s" % (name, first, var),
+                           dict(sc=name, label=label, close=var,
+                                reuse=first))
 
 
 def post_state(ctx, key, W, who, conn, sock, link):
@@ -667,6 +678,39 @@ def run_close(ctx, cid, P):
     tw, tr, got = p.xfer(p.c, p.s, b"payload" * 10)
     key = {"close": var, "fam": "tls13" if sc.ver == (3, 4) else "le12"}
     W = {"case": cid, "scenario": sc.name}
+    if P.get("reuse"):
+        key["reuse"] = P["reuse"]
+        p.c.closeSocket = p.s.closeSocket = False
+        x, xs, y, ys = (p.c, p.csock, p.s, p.ssock) \
+            if P["reuse"] != "server_closed" else \
+            (p.s, p.ssock, p.c, p.csock)
+        if P["reuse"] == "both_closed":
+            drive.run([drive.Task("c1", drive.aclose(x), xs),
+                       drive.Task("c2", drive.aclose(y), ys)], p.link,
+                      max_steps=3000)
+        else:
+            # y learns of the end from x's close_notify in a read
+            t1 = drive.Task("c1", drive.aclose(x), xs)
+            t = drive.Task("r", drive.aread(y, None, 1), ys)
+            drive.run([t1, t], p.link, max_steps=3000)
+            if not (t.status == "done" and t.result == b"" and
+                    t1.status == "done"):
+                ctx.inconc("first session did not end cleanly in %s" % cid)
+                return
+        fl2 = sc.flavor(st)
+        tc, ts = p.handshake(fl2)
+        if tc.status != "done" or ts.status != "done":
+            ctx.violation(dict(key, clause="second_handshake_failed",
+                               c=str(outcome(tc)), s=str(outcome(ts))), W,
+                          "second handshake on the same connection objects "
+                          "after an orderly close: %r %r" % (tc.exc, ts.exc))
+            return
+        p.c.closeSocket = p.s.closeSocket = True
+        tw, tr, got = p.xfer(p.c, p.s, b"second" * 10)
+        if got != b"second" * 10:
+            ctx.violation(dict(key, clause="second_session_data"), W,
+                          "data of the second session not delivered")
+        ctx.count("reused_objects")
     ctx.ev()
     ctx.count("close_runs")
     cs, ss = p.c.session, p.s.session
@@ -772,6 +816,9 @@ def finalize(m, tier):
         out.append("no send failure with a pending alert was surfaced")
     if c.get("full_reads_checked", 0) == 0:
         out.append("read completeness oracle never evaluated")
+    if c.get("reused_objects", 0) < 9:
+        out.append("fewer than 9 second sessions on re-used connection "
+                   "objects")
     if c.get("orderly_closes", 0) == 0:
         out.append("no orderly close checked")
     return out
